@@ -384,6 +384,119 @@ func genPkgConfig(rt *rapid.T) pkgConfig {
 	return pkgConfig{name: "generated-grammar+matching-actions", files: map[string]string{"g.lox": g.Lox(), "u.go": strings.ReplaceAll(pgo.UserGo(g, pgo.Opts{}), "package PKGNAME", "package pkg")}}
 }
 
+// genOddPkg composes a Go package from alphabets of declaration shapes around a fixed
+// grammar that uses every sugar: how Token, the parser struct, the element types, their
+// Discard members, the action methods and _onBounds are declared. Most combinations are
+// wrong in one or two ways; lox has to say so (or succeed), never crash.
+func genOddPkg(rt *rapid.T) pkgConfig {
+	pick := func(label string, xs ...string) string {
+		// the first entry is the ordinary form and is taken half of the time
+		if rapid.Bool().Draw(rt, label+"-plain") {
+			return xs[0]
+		}
+		return xs[ri(rt, 0, len(xs)-1, label)]
+	}
+	lox := "@lexer\nA = 'a'\nB = 'b'\nC = 'c'\n@frag ' ' @discard\n\n@parser\n@start s = x*! y? @list(z, B) w+\n  | @error\nx = A\ny = B\nz = C\nw = A B\n"
+	var g strings.Builder
+	g.WriteString("package pkg\n\n")
+	g.WriteString(pick("token",
+		"type Token struct{ ID int }\n",
+		"type Token = int\n",
+		"type Token interface{}\n",
+		"type Token[T any] struct{ v T }\n",
+		"var Token int\n",
+		"func Token() {}\n",
+		"type Token struct{ ID int }\n\nfunc (Token) Discard() {}\n",
+		"type token struct{}\n") + "\n")
+	g.WriteString(pick("parser",
+		"type parser struct{ lox }\n",
+		"type parser struct {\n\tlox\n\tdepth int\n}\n",
+		"type parser struct{ l lox }\n",
+		"type parser struct{ lox lox }\n",
+		"type inner struct{ lox }\n\ntype parser struct{ inner }\n",
+		"type parser = struct{ lox }\n",
+		"type parser struct{ lox }\n\ntype lox2 = lox\n\ntype second struct{ lox2 }\n",
+		"type parser interface{ lox }\n",
+		"type parser struct{ lox }\n\ntype Error struct{}\n") + "\n")
+	item := pick("item",
+		"type Item struct{ N int }\n",
+		"type Item int\n",
+		"type Item []int\n",
+		"type Item = *struct{ N int }\n",
+		"type Item interface{ Discard() bool }\n",
+		"type Item[T any] struct{ v T }\n",
+		"type Item func() bool\n",
+		"type base struct{}\n\nfunc (base) Discard() bool { return false }\n\ntype Item struct{ base }\n",
+		"type Item struct{ Discard bool }\n",
+		"type Item struct{ Discard func() bool }\n")
+	g.WriteString(item + "\n")
+	if !strings.Contains(item, "Discard") {
+		g.WriteString(pick("discard",
+			"func (i Item) Discard() bool { return false }\n",
+			"func (i *Item) Discard() bool { return false }\n",
+			"func (i Item) Discard() {}\n",
+			"func (i *Item) Discard() {}\n",
+			"func (i Item) Discard() int { return 0 }\n",
+			"func (i Item) Discard() (bool, error) { return false, nil }\n",
+			"func (i Item) Discard(x int) bool { return false }\n",
+			"func (i Item) Discard(xs ...int) bool { return false }\n",
+			"func (i Item) Discard() (ok bool) { return }\n",
+			"func (i Item) discard() bool { return false }\n",
+			"") + "\n")
+	}
+	xt := pick("xtype", "Item", "*Item", "any", "[]Item", "Item", "map[string]Item", "func() Item", "chan Item", "struct{ Item }", "*Token")
+	recv := pick("recv", "(p *parser)", "(p parser)", "(parser)", "(p *inner)", "(p *lox)", "(p **parser)")
+	g.WriteString("func " + recv + " on_x(a Token) " + xt + " { var r " + xt + "; return r }\n")
+	g.WriteString(pick("on_y",
+		"func (p *parser) on_y(b Token) int { return 1 }\n",
+		"func (p *parser) on_y(Token) int { return 1 }\n",
+		"func (p *parser) on_y(_ Token) (r int) { return }\n",
+		"func (p *parser) on_y(b ...Token) int { return 1 }\n",
+		"func (p *parser) on_y() int { return 1 }\n",
+		"func (p *parser) on_y(b Token) {}\n",
+		"func (p *parser) on_y(b Token) (int, int) { return 1, 2 }\n",
+		"func (p *parser) on_y[T any](b T) int { return 1 }\n",
+		"func on_y(p *parser, b Token) int { return 1 }\n",
+		"func (p *parser) On_y(b Token) int { return 1 }\n",
+		"func (p *parser) on_y__(b Token) int { return 1 }\n",
+		"func (p *parser) on_y__1(b Token) int { return 1 }\nfunc (p *parser) on_y__2(b Token) int { return 1 }\n"))
+	g.WriteString("func (p *parser) on_z(c Token) string { return \"z\" }\n")
+	g.WriteString("func (p *parser) on_w(a, b Token) Token { return a }\n")
+	g.WriteString(pick("on_s",
+		"func (p *parser) on_s(xs []"+xt+", y int, zs []string, ws []Token) int { return 0 }\n",
+		"func (p *parser) on_s(xs any, y any, zs any, ws any) int { return 0 }\n",
+		"func (p *parser) on_s(xs []"+xt+", y int, zs []string, ws ...Token) int { return 0 }\n",
+		"func (p *parser) on_s(all ...any) int { return 0 }\n",
+		"func (p *parser) on_s(xs []"+xt+", y *int, zs []string, ws []Token) int { return 0 }\n",
+		"func (p *parser) on_s(xs ["+"3]"+xt+", y int, zs []string, ws []Token) int { return 0 }\n",
+		"func (p *parser) on_s(xs []"+xt+", y int, zs []string) int { return 0 }\n",
+		"func (p *parser) on_s(xs []"+xt+", y int, zs []string, ws []Token) *parser { return p }\n",
+		"func (p *parser) on_s(xs []"+xt+", y int, zs []string, ws []Token) (r lox) { return }\n"))
+	g.WriteString(pick("on_err",
+		"func (p *parser) on_s__err(e Error) int { return 0 }\n",
+		"func (p *parser) on_s__err(e error) int { return 0 }\n",
+		"func (p *parser) on_s__err(e any) int { return 0 }\n",
+		"func (p *parser) on_s__err(e Token) int { return 0 }\n",
+		"func (p *parser) on_s__err(e *Error) int { return 0 }\n",
+		"func (p *parser) on_s__err() int { return 0 }\n",
+		""))
+	g.WriteString(pick("bounds",
+		"",
+		"func (p *parser) _onBounds(r any, begin, end Token) {}\n",
+		"func (p *parser) _onBounds() {}\n",
+		"func (p *parser) _onBounds(r any) {}\n",
+		"func (p *parser) _onBounds(r any, begin, end Token, more int) {}\n",
+		"func (p *parser) _onBounds(r int, begin, end string) {}\n",
+		"func (p *parser) _onBounds(r any, begin, end Token) int { return 0 }\n",
+		"func (p *parser) _onBounds(r any, be ...Token) {}\n",
+		"func (p parser) _onBounds(r any, begin, end Token) {}\n",
+		"var _onBounds = 1\n",
+		"func (p *parser) on_(a Token) int { return 0 }\n",
+		"func (p *parser) on___x(a Token) int { return 0 }\n",
+		"func (p *parser) _onError() {}\n"))
+	return pkgConfig{name: "odd-go-declarations", files: map[string]string{"g.lox": lox, "p.go": g.String()}}
+}
+
 func allPkgConfigs() []pkgConfig {
 	spec := validSpec
 	cfgs := []pkgConfig{
@@ -429,7 +542,7 @@ func TestC12(t *testing.T) {
 	run := ev.Start("C12")
 	defer run.Finish(t)
 	run.Rule = "(i) .lox texts: every grammar file, example and documentation snippet of the repository, generated grammars and lexer specs (all features) and hostile constants, pushed through 1-4 text-level mutations (delete/duplicate/transpose/insert/replace tokens and lines, splice two specs, truncate, numeric extremes in @left(n), 200-3000-term lines, NUL / invalid UTF-8 / surrogate bytes), as 1-2 files, through the in-process front end (parse, analyse, LALR construction) under recover; " +
-		"(ii) 30 Go-package configurations (no Go file, syntax error, ill-typed, no Token, no / two / generic / pointer-embedded parser struct, only _test.go, only build-tag-excluded files, directory outside any module, stale foreign *.gen.go, missing / ambiguous / orphan / ill-shaped actions, two packages, overlapping rules in two .lox files, ...) and generated grammars with matching actions through the real codegen.Generate with the real `go list`, 1 in 4 also through the lox binary; (iii) thorough tier: native go fuzzing of the front end. " +
+		"(ii) 30 Go-package configurations (no Go file, syntax error, ill-typed, no Token, no / two / generic / pointer-embedded parser struct, only _test.go, only build-tag-excluded files, directory outside any module, stale foreign *.gen.go, missing / ambiguous / orphan / ill-shaped actions, two packages, overlapping rules in two .lox files, ...) and generated grammars with matching actions, and packages composed from alphabets of odd Go declarations (Token / parser struct / element type / Discard member / action signature / _onBounds shapes around a grammar using every sugar), through the real codegen.Generate with the real `go list`, 1 in 4 also through the lox binary; (iii) thorough tier: native go fuzzing of the front end. " +
 		"oracle: success => the three files exist, are non-empty and parse as Go; failure => at least one diagnostic line; a panic is a violation identified by its first frame inside the repository; a run over 30 s is re-run in a subprocess under a 120 s guard before it is called a hang. " +
 		"non-trivial = case that gets past the front-end lexer/parser, or a package configuration; distinct by (outcome class, first diagnostic with names and numbers blanked)"
 	run.Assumptions = []string{"30 s in-process / 120 s subprocess guards are 4-5 orders of magnitude above normal running time; a hit is only called a hang after the second, independent run"}
@@ -513,8 +626,11 @@ func TestC12(t *testing.T) {
 			return
 		}
 	}
-	f = run.Check("packages", run.N(60, 1200), 1, func(rt *rapid.T, fail ev.FailFunc) {
+	f = run.Check("packages", run.N(150, 2400), 1, func(rt *rapid.T, fail ev.FailFunc) {
 		cfg := genPkgConfig(rt)
+		if ri(rt, 0, 2, "odd") != 0 {
+			cfg = genOddPkg(rt)
+		}
 		c := &Case{Kind: "pkg", Files: cfg.files, NoMod: cfg.nomod, Config: cfg.name}
 		run.Class("config:" + cfg.name)
 		d := evalPkg(run, c, false)
